@@ -260,10 +260,12 @@ def digest(obj):
 # ---------------------------------------------------------------------------------------------
 # Apalache (inductive invariants over unbounded integers)
 
-def run_apalache(work, module, init, inv, length, cinit=None, timeout=300, tag=None):
+def run_apalache(work, module, init, inv, length, cinit=None, timeout=300, tag=None, extra=()):
     """apalache-mc check --init=<init> --inv=<inv> --length=<length>; returns 'NoError' / 'Error'."""
     d = work.sub("apalache_" + (tag or "%s_%s_%d" % (init, inv, length)))
     shutil.copy(os.path.join(VERIF, "spec", module + ".tla"), d)
+    for m in extra:
+        shutil.copy(os.path.join(VERIF, "spec", m + ".tla"), d)
     cmd = ["apalache-mc", "check", "--init=" + init, "--inv=" + inv, "--length=%d" % length,
            "--out-dir=" + os.path.join(d, "out"), "--run-dir=" + os.path.join(d, "run")]
     if cinit:
